@@ -235,3 +235,59 @@ Theorem C01_history_store_sliced_refuted :
   length (nth 1 (map (c01_stateless F64 (fun p => p) (fun p => p) a) ops) []) = 2%nat.
 Proof. exact c01_store_sliced_refuted. Qed.
 Print Assumptions C01_history_store_sliced_refuted.
+
+(* CALLER-SIDE OVERWRITES.  A call may be followed by the caller overwriting, in place, the arrays it was handed; the effect
+   on the object is modelled as an arbitrary change g of the cache IF those arrays are the cache or a view of it.
+   With nothing cached nothing the caller holds aliases the object: every observation is what a fresh object returns ... *)
+Theorem C01_history_overwrite_safe_without_cache : forall (T : Type) (OP : ops T) (invT invP : T * T -> T * T) (a : area T)
+    (ms : list (c01_mop (T:=T))),
+  Forall (fun m => c01_no_cache_op (c01_mop_op m)) ms ->
+  c01_mrun OP invT invP a None ms = map (fun m => c01_stateless OP invT invP a (c01_mop_op m)) ms.
+Proof. intros T OP invT invP a ms H. apply c01_mrun_no_cache. exact H. Qed.
+Print Assumptions C01_history_overwrite_safe_without_cache.
+(* ... but on the code as it is, cache=True hands out the cache itself: an overwrite after it changes later answers
+   (finding C01.lonlat.history.cache_aliasing) *)
+Theorem C01_history_aliased_overwrite_refuted :
+  let a := mk_area 0%float 0%float 2%float 2%float 2 2 in
+  let scale := map (map (fun p : float * float => (PrimFloat.mul (fst p) 0.5%float, snd p))) in
+  let ms := [MCall (OpLonlats None None true) (Some scale); MCall (OpLonlats None None false) None] in
+  c01_mrun F64 (fun p => p) (fun p => p) a None ms <> map (fun m => c01_stateless F64 (fun p => p) (fun p => p) a (c01_mop_op m)) ms.
+Proof. exact c01_aliased_overwrite_refuted. Qed.
+Print Assumptions C01_history_aliased_overwrite_refuted.
+
+(* the 1-D projection vectors are not memoised: every get_proj_vectors() returns the freshly computed vector whatever callers
+   overwrote before; the variant that memoises them and hands the same arrays out is refuted *)
+Theorem C01_vectors_no_memo : forall (T : Type) (OP : ops T) (a : area T) (ops : list (c01_vop (T:=T))),
+  c01_vrun OP a false None ops =
+  map (fun op => match op with VGet => Some (c01_vec_x OP a 0 (width a)) | VOverwrite _ => None end) ops.
+Proof. intros. apply c01_vrun_no_memo. Qed.
+Print Assumptions C01_vectors_no_memo.
+Theorem C01_vector_memo_refuted :
+  let a := mk_area 0%float 0%float 2%float 2%float 2 2 in
+  let ops := [VGet; VOverwrite (fun x => PrimFloat.mul x 0.5%float); VGet] in
+  nth 2 (c01_vrun F64 a true None ops) None <> Some (c01_vec_x F64 a 0 (width a)) /\
+  nth 2 (c01_vrun F64 a false None ops) None = Some (c01_vec_x F64 a 0 (width a)).
+Proof. exact c01_vector_memo_refuted. Qed.
+Print Assumptions C01_vector_memo_refuted.
+
+(* JOINT EVALUATION.  Several lazy dask results evaluated in ONE dask.compute share one task graph, merged by task name.
+   _proj_coords_dask's task name is a token of ALL arguments handed to _generate_2d_coords (pixel sizes, upper-left pixel
+   centre, block location; the token is assumed injective, as sha1 elsewhere) and the block value is a function of those
+   arguments: for any collection of areas and chunkings every block of the merged graph is its own stand-alone block ... *)
+Theorem C01_joint_compute : forall (T : Type) (OP : ops T) (keq : c01_task T -> c01_task T -> bool) (tasks : list (c01_task T)),
+  (forall k k', keq k k' = true -> k = k') -> (forall k, keq k k = true) ->
+  (forall t, In t tasks -> c01_glookup keq (c01_graph (fun t => t) (c01_task_value OP) tasks) t = Some (c01_task_value OP t)) /\
+  (forall a r0 r1 c0 c1, c01_task_value OP (c01_task_of OP a r0 r1 c0 c1) = c01_block OP a r0 r1 c0 c1).
+Proof. intros T OP keq tasks Hs Hr. split; [apply c01_joint_coords; assumption | intros; apply c01_task_value_block]. Qed.
+Print Assumptions C01_joint_compute.
+(* ... and a name that leaves out the grid origin is refuted: two tiles of one grid then share a name and one tile's block is
+   served for both *)
+Theorem C01_joint_name_without_origin_refuted :
+  let west := mk_area 0%float 0%float 2%float 2%float 2 2 in
+  let east := mk_area 2%float 0%float 4%float 2%float 2 2 in
+  let tw := c01_task_of F64 west 0 2 0 2 in let te := c01_task_of F64 east 0 2 0 2 in
+  c01_glookup c01_keq_no_origin (c01_graph c01_name_no_origin (c01_task_value F64) [tw; te]) (c01_name_no_origin te)
+  = Some (c01_task_value F64 tw) /\
+  c01_task_value F64 tw <> c01_task_value F64 te.
+Proof. exact c01_name_without_origin_refuted. Qed.
+Print Assumptions C01_joint_name_without_origin_refuted.
